@@ -476,10 +476,13 @@ CORPUS: list[dict[str, Any]] = [
     {"cap": 4096, "decode": "both", "path": "/echo", "cl": "honest", "ce": "zstd",
      "body": {"kind": "mangled", "codec": "zstd", "fkind": "streaming", "plain": {"pattern": "text", "n": 3000}, "mangle": {"type": "truncate", "cut": 3}}},
     {"cap": 4096, "decode": "gzip", "path": "/echo", "cl": "honest", "ce": "zstd", "body": {"kind": "frame", "codec": "zstd", "fkind": "repo", "plain": {"pattern": "text", "n": 100}}},
-    {"cap": 70000, "decode": "both", "path": "/echo", "cl": "honest", "ce": "zstd",
-     "body": {"kind": "valid_padded", "codec": "zstd", "fkind": "streaming", "pad": 40, "cut": 4}},
-    {"cap": 70000, "decode": "both", "path": "/echo", "cl": "honest", "ce": "gzip",
-     "body": {"kind": "valid_padded", "codec": "gzip", "fkind": "repo", "pad": 40, "cut": 4}},
+    # a valid request + padding spanning three zstd blocks, frame cut 4 bytes short: the decodable prefix still holds the request
+    {"cap": 400000, "decode": "both", "path": "/echo", "cl": "honest", "ce": "zstd",
+     "body": {"kind": "valid_padded", "codec": "zstd", "fkind": "streaming", "pad": 1200, "cut": 4}},
+    {"cap": 400000, "decode": "both", "path": "/echo", "cl": "honest", "ce": "zstd",
+     "body": {"kind": "valid_padded", "codec": "zstd", "fkind": "arrow", "pad": 1200, "cut": 12}},
+    {"cap": 400000, "decode": "both", "path": "/echo", "cl": "honest", "ce": "gzip",
+     "body": {"kind": "valid_padded", "codec": "gzip", "fkind": "repo", "pad": 1200, "cut": 4}},
     # requests without Content-Length (open finding)
     {"cap": 300, "decode": "both", "path": "/echo", "cl": "none", "ce": None, "body": {"kind": "plain", "plain": {"pattern": "zeros", "n": 5000}}},
     {"cap": 4096, "decode": "both", "path": "/echo", "cl": "none", "ce": None, "body": {"kind": "valid"}},
